@@ -353,6 +353,35 @@ def return_leaves(body):
     return out
 
 
+def value_leaves(n):
+    """leaf expressions an expression can evaluate to (branches that diverge are skipped)"""
+    out = []
+
+    def go(n):
+        if n is None:
+            return
+        k = n.get("k")
+        if k == "block":
+            if n.get("expr") is not None:
+                go(n["expr"])
+        elif k == "if":
+            go(n["t"])
+            if "e" in n:
+                go(n["e"])
+        elif k == "match":
+            if is_try(n):
+                out.append(n)
+                return
+            for a in n["arms"]:
+                go(a["body"])
+        elif k in ("ret", "break", "continue"):
+            return
+        else:
+            out.append(n)
+    go(n)
+    return out
+
+
 def diverges(n):
     """block / expression that always leaves the function or loop iteration"""
     if n is None:
